@@ -257,7 +257,16 @@ def gen_cases(rng, n_pairs, n_setp):
         t = rng.choice([0.7, 0.5, 0.31, 0.83])
         vx = x0 + (x1 - x0) * t + rng.choice([0.0, 0.13, -0.21]) * g
         ve = y0 + (y1 - y0) * (vx - x0) / (x1 - x0)                 # the edge at vx
-        vy = ve + rng.choice([0.0, 0.0, 0.05, -0.05, 0.2, -0.2]) * g
+        vy = ve + rng.choice([0.0, 0.05, -0.05, 0.2, -0.2]) * g
+        if rng.random() < 0.6:
+            # aimed: the edge crosses the upper half of the vertex's cell (so its hot pixel is the row ABOVE the bounding box of
+            # the edge) and the vertex is just below the edge, farther than the intersection-nearness tolerance g/100
+            base = math.floor(ve / g) * g
+            ve_t = base + rng.choice([0.53, 0.56, 0.6]) * g
+            y0 += ve_t - ve; y1 += ve_t - ve; top += ve_t - ve
+            A = [(x0, y0), (x1, y1), (x1, top), (x0, top), (x0, y0)]
+            ve = y0 + (y1 - y0) * (vx - x0) / (x1 - x0)
+            vy = ve - rng.choice([0.02, 0.03, 0.025]) * g
         depth = rng.randint(8, 16) * g
         B = [(vx, vy), (vx + rng.randint(3, 6) * g, vy - depth), (vx - rng.randint(3, 6) * g, vy - depth - 0.3 * g), (vx, vy)]
         tf = rng.choice(['id', 'swap', 'flipy', 'flipx'])
